@@ -145,6 +145,29 @@ def scan_zones(data: bytes):
     return fields, zones, pool
 
 
+def scan_id_map(data: bytes, fields, pool):
+    """Entries of the TZDB_ID_MAP field (a count, then pairs of string references: alias -> target).
+    -> list of dicts {k0, k1, v0, v1, key, val} with byte spans of the two references."""
+    out = []
+    for f in fields:
+        if f["id"] != 3:
+            continue
+        try:
+            i = f["data_start"]
+            n, i = _varint(data, i)
+            for _ in range(n):
+                k, j = _varint(data, i)
+                v, j2 = _varint(data, j)
+                if j2 > f["end"]:
+                    break
+                out.append({"k0": i, "k1": j, "v0": j, "v1": j2, "key": pool[k] if k < len(pool) else None, "val": pool[v] if v < len(pool) else None})  # fmt: skip
+                i = j2
+        except ValueError:
+            pass
+        break
+    return out
+
+
 # ---------------------------------------------------------------------------------------------------------------------
 # deterministic work budget: count function entries and loop back-edges with sys.monitoring
 
